@@ -9,19 +9,40 @@ CHECK = {'level': 'exploration',
          '(both known from schedule-point events, not from clocks). Distinct by digest of the whole workload. One case in five is of the class "stalled peer": 1-2 black-hole peers (silent TCP listeners on loopback '
          'dialled as libp2p peers: opening the stream blocks until the context is cancelled after 2-6 timeouts or libp2p\'s 5 s local dial timeout) addressed by 1-5 '
          'of the calls, 30-120 calls to healthy peers whose handler answers within 2 ms, timeout 150-300 ms, 8-24 workers; non-trivial there = at least 8 requests '
-         'overlapped AND healthy calls overlapped a stalled send of their own node AND were judged (no late process heartbeat during the call).',
+         'overlapped AND healthy calls overlapped a stalled send of their own node AND were judged (no late process heartbeat during the call). '
+         'Separate generated class "late-response storm" (TestStorm, 40 cases quick / 200 per thorough shard): 8-64 concurrent requesters (2-6 calls each, at most 256) '
+         'on one or several nodes against 1-3 responder hosts, timeout 8-40 ms; per call: 20/50/80/100 % of the calls have 1-4 leading attempts answered 1-20 ms AFTER '
+         'the timeout (their replies take onResponse\'s unknown-request-ID branch while the other requesters register, retry and remove their pending entries), '
+         'the rest fast handlers (0-2 ms); about 7 % cancelled contexts (after 0-3 timeouts), about 6 % calls to a peer ID nobody has an address of (register + remove back to back), '
+         'about 7 % error replies, 0-6 unsolicited responses; for 0/30/60/100 % of the late calls onResponse is held at its unknown-ID warning (logger call inside the resMu '
+         'critical section, after the lookup) until another requester of that node is about to take resMu (call about to start / timer fired), + 0.1-1.5 ms, cap 80 ms. '
+         'Non-trivial there = at least 8 requests overlapped AND at least one late reply took the unknown-ID branch while other requests of the same node were in flight '
+         '(schedule-point/log events, not clocks). After every storm: pending tables empty, then one fresh request per node (1 s timeout) must be served. '
+         'Watchdog for every case of every class: a request that does not end is a VIOLATION when three goroutine dumps (>= 300 ms and >= 40 process heartbeats apart, '
+         'after >= 4 s and >= 400 heartbeats without any event) show the same goroutines of the case\'s cluster waiting for a mutex inside pkg/p2p below a MessageProtocol '
+         'method, or an outstanding requester parked in the select of sendRequestMessage; or, with nothing recognisable parked, when calls are outstanding and no event '
+         'happened for 30 s (10 s after the first such hit) while the process ran for >= 2000 heartbeats (callers\' stacks reported).',
  'level_text': 'Generated concurrent request/response workloads between real libp2p hosts with hook-ordered races; every call must return its own '
                'token or an error, hook-ordered replies must not be dropped, handler runs <= retries+1 per call, no pending entry after quiescence, no '
-               'goroutine parked in onResponse (goroutine dump). Schedules are steered at three points, not enumerated; the Go scheduler is not owned.',
- 'level_note': 'Blocked-forever is reported only with a goroutine dump showing onResponse parked in a channel send while nothing moved for 4 s; budget '
-               'hits are recorded as inconclusive. No latency bound is asserted.',
+               'goroutine parked in onResponse (goroutine dump), no goroutine of the layer waiting for a mutex or parked in its select beyond the timeout '
+               '(three goroutine dumps), a fresh request is served after a late-response storm. Schedules are steered at three points and at the unknown-ID '
+               'log line, not enumerated; the Go scheduler is not owned.',
+ 'level_note': 'Blocked-forever is reported only on positive evidence from goroutine dumps taken while nothing moved for 4 s and the process demonstrably ran '
+               '(heartbeats): onResponse parked in a channel send, layer goroutines waiting for a mutex, a requester parked in its select although timer and '
+               'context should have ended it, or - shape unknown - callers still inside RequestFrom after 30 s without any event and >= 2000 heartbeats. Only a '
+               'starved process (too few heartbeats) ends a case as inconclusive at the 120 s budget. No latency bound is asserted.',
  'technique': 'property-based testing (rapid) of concurrent histories with schedule-point steering and invariant/correlation oracles',
  'assumptions': ['dropped replies are observed through the "unknown request ID" warning of onResponse (custom logger); if its text changes only the '
                  'lost-reply signal is lost', 'duplicates carry the same payload as the real reply (the layer cannot tell a forged reply with a valid ID apart)',
                  'rate limiting is disabled through WithRPCMessageCounter (belongs to C18)',
                  'stalled-peer class: "reply not delivered in time" is measured in heartbeats of a goroutine of the test process (>= 20 beats between the handler\'s '
                  'answer and the requester\'s timer), skipped for calls during which a beat was late (> 50 ms), and counts only when the same scenario shows it 3 of 3 '
-                 'times; otherwise inconclusive'],
+                 'times; otherwise inconclusive',
+                 'late-response storm: the hold between the lookup and the rest of the unknown-ID branch rides on the "unknown request ID" warning being logged inside the '
+                 'resMu critical section (no engine hook there); if the line moves, late replies are still produced but no longer held (label storm:late-replies-held-... drops to 0)',
+                 'blocked-layer evidence reads goroutine states and frames from runtime.Stack (sync.Mutex.Lock / sync.RWMutex.RLock / sync.RWMutex.Lock / semacquire, '
+                 'first frame outside sync/runtime in lisk-engine/pkg/p2p, receiver pointer of this case\'s MessageProtocol); a layer that blocks in another shape is caught by the 30 s no-progress rule',
+                 'liveness probe: a fresh fast request that fails 3 times (12 attempts of 1 s) counts only if no process heartbeat was late meanwhile'],
  'quick': [{'pkg': 'c17', 'checks': 60, 'timeout': 1800, 'shrinktime': '6s', 'env': {'VERIF_C17_STORM': 40}}],
  'thorough': [{'pkg': 'c17', 'checks': 800, 'shards': 12, 'timeout': 2400, 'gomaxprocs': 4, 'shrinktime': '6s', 'env': {'VERIF_C17_STORM': 200}},
               {'pkg': 'c17', 'race': True, 'checks': 200, 'shards': 4, 'timeout': 2400, 'gomaxprocs': 4, 'shrinktime': '6s', 'env': {'VERIF_C17_STORM': 60}}]}
